@@ -12,7 +12,7 @@ CENSUS_TRUST = [
 class C13(HistProp):
     id = 'C13'
     module = 'Cbor.Props.C13'
-    theorems = ['Props.C13.C13_no_libc_heap_call', 'Props.C13.C13_hooks_assigned_once', 'Props.C13.C13_allocates_nothing', 'Props.C13.C13_hook_callers']
+    theorems = ['Props.C13.C13_no_libc_heap_call', 'Props.C13.C13_hooks_assigned_once', 'Props.C13.C13_allocates_nothing', 'Props.C13.C13_hook_callers', 'Props.C13.C13_no_indirect_bypass']
     trusted_base = BASE_TRUST + CENSUS_TRUST + [
         'that every block released was obtained from the installed allocator, is live, and is released once is observed at run time: tagging allocator '
         '(hidden header with live/dead magic: a foreign or repeated free / realloc aborts), arena allocator with no libc backing (a stray libc free/realloc of an arena '
